@@ -788,6 +788,12 @@ func (c *fctx) callExpr(x *ast.CallExpr) (lx, error) {
 				if err != nil {
 					return lx{}, err
 				}
+				if t.k == kList && len(x.Args) == 3 {
+					if lv, ok := c.constIntVal(x.Args[1]); ok && lv.Sign() == 0 {
+						// make([]T, 0, cap): empty; the fresh capacity is zeros ("any stale tail" covers it)
+						return lx{s: "[]", t: t}, nil
+					}
+				}
 				if t.k != kList || len(x.Args) != 2 {
 					return lx{}, fmt.Errorf("unsupported make")
 				}
@@ -800,6 +806,15 @@ func (c *fctx) callExpr(x *ast.CallExpr) (lx, error) {
 					return lx{}, err
 				}
 				return lx{s: c.hoist(fmt.Sprintf("Go.makeZero %s %s", z, n)), t: t}, nil
+			}
+			if id.Name == "new" && len(x.Args) == 1 {
+				tv := c.info.Types[x.Args[0]]
+				t, err := c.g.ltypeOf(tv.Type)
+				if err != nil {
+					return lx{}, err
+				}
+				z, err := c.zeroOf(t)
+				return lx{s: z, t: t}, err
 			}
 			return lx{}, fmt.Errorf("builtin %s not supported", id.Name)
 		}
